@@ -83,7 +83,7 @@ def run(ctx):
             points[k] = points.get(k, 0) + v
     if images == 0:
         raise vlib.Inconclusive('no crash image was taken')
-    needed = ['hook snapshot.afterWriteFiles', 'hook replace.afterRename', 'hook snapshot.afterReplace', 'hook compact.afterWriteFiles',
+    needed = ['hook snapshot.afterWriteFiles', 'hook replace.begin', 'hook replace.afterRename', 'hook snapshot.afterReplace', 'hook compact.afterWriteFiles',
               'hook replace.afterRemoveOld', 'hook tombstone.commit.renamed', 'hook delete.afterTombstones', 'torn WAL append of Write',
               'Crash step']
     missing = [p for p in needed if not any(k.startswith(p) for k in points)]
